@@ -86,8 +86,9 @@ SAME_KIND_FUNCS = {"sorted", "list", "tuple", "reversed", "set", "frozenset", "a
 class Program:
     """all the files: function table by simple name (for summaries and for discharging `requires` at internal callers)"""
 
-    def __init__(self, fields, children):
+    def __init__(self, fields, children, analyzer=None):
         self.fields, self.children = fields, children
+        self.analyzer = analyzer
         self.mods = {}
         self.funcs = {}             # simple name -> [(rel, qualname, FunctionDef)]
         self.sites, self.calls = [], []
@@ -116,7 +117,7 @@ class Program:
             return None
         self._busy.add(name)
         try:
-            an = Analyzer(self, rel, record=False)
+            an = (self.analyzer or Analyzer)(self, rel, record=False)
             an.function(fdef, qual, {})
             k = join(*an.returns) if an.returns else KPY
         finally:
@@ -126,7 +127,7 @@ class Program:
 
     def run(self):
         for rel, tree in self.mods.items():
-            an = Analyzer(self, rel, record=True)
+            an = (self.analyzer or Analyzer)(self, rel, record=True)
             an.module(tree)
 
 
@@ -587,13 +588,13 @@ def verdict(cls, kind):
     return "ok"
 
 
-def analyse():
+def analyse(analyzer=None):
     from spec import thrift_idl
     text = open(os.path.join(REPO, "fastparquet", "cencoding.pyx")).read()
     specs, children = parse_tables(text)
     fields = {f for s in specs.values() for f in s} - {f for c in children.values() for f in c}
     childs = {f for c in children.values() for f in c}
-    prog = Program(fields, childs)
+    prog = Program(fields, childs, analyzer)
     for rel in FILES:
         path = os.path.join(REPO, rel)
         if os.path.exists(path):
@@ -702,4 +703,272 @@ def check(ctx, timeout=None):
                          + (f" (kind not derivable at: {', '.join(sorted(pr))})" if pr else ""))
     if n_sites < 20:
         res.addk("thrift_value.sites_found", "safety", UNKNOWN, None, 0.0, "kind-analysis", f"only {n_sites} thrift value sites found (expected >= 30)")
+    return res
+
+
+# =================================================================================================
+# text dimension: library-generated text that reaches a binary / string thrift field is ASCII or already encoded bytes
+# =================================================================================================
+# ThriftObject.to_bytes sizes the FileMetaData buffer with len(str(key_value_metadata)) - CHARACTERS of the repr - while write_thrift copies the
+# UTF-8 BYTES of every str (known findings C12-P-to-bytes-capacity / C10-to-bytes-buffer-heuristic-counts-chars for text the USER supplies).
+# A bytes value is safe for that count (its repr is at least as long as the bytes), an ASCII str too.  The obligation
+#     thrift_text.library_generated_text_is_ascii_or_bytes[file:line:func:Struct]
+# separates "the library itself adds text that may be non-ASCII" (REFUTED at the site: a new route into the capacity defect opened by library code)
+# from "text supplied by the caller / read from a file" (the known finding's region: listed in the detail, not a violation of this obligation).
+# Kinds (same lattice machinery): safe (bytes, ASCII str, numbers) < user (caller-supplied / foreign data and what is derived from it by str(),
+# formatting, concatenation, container access) < unknown < non-ascii (json.dumps(..., ensure_ascii=False) of anything that is not safe, a non-ASCII
+# literal).  Containers are tracked weakly: `d[k] = v`, `.append / .extend / .update / .setdefault / .insert` join v's kind into the container.
+SAFE, USER, NONASCII = PY, PARAM, NP
+TEXT_ASSUMED = [
+    "thrift_text: json.dumps / ujson.dumps / rapidjson.dumps with ensure_ascii left at its default (True) return ASCII str; orjson.dumps returns bytes; "
+    "the codecs of fastparquet/json.py all return bytes (thrift_text.json_codecs_return_bytes checks their source); str.encode() / bytes() / "
+    "struct.pack / .tobytes() return bytes, whose length the buffer heuristic counts at least once per byte",
+    "thrift_text: a call the analysis has no rule or summary for returns text that is non-ASCII only if one of its arguments / its receiver is "
+    "(external functions do not invent non-ASCII text from ASCII input)",
+]
+CONTAINER_ADD = {"append", "extend", "update", "setdefault", "insert", "add", "appendleft"}
+TO_BYTES = {"encode", "tobytes", "to_bytes", "pack", "hex", "isoformat", "digest", "hexdigest"}
+NUMERIC_FUNCS = {"int", "len", "bool", "float", "ord", "hash", "id", "isinstance", "hasattr", "callable", "range", "round", "abs", "sum", "min", "max", "bytes", "bytearray"}
+JSON_ROOTS = {"json", "ujson", "rapidjson", "simplejson", "orjson"}
+
+
+class TextAnalyzer(Analyzer):
+    def site(self, line, fn, struct, vals):
+        if self.record:
+            self.prog.sites.append((self.rel, line, fn, struct, vals))
+
+    def const_kind(self, v, depth=0):
+        if isinstance(v, ast.Constant):
+            return KPY if not isinstance(v.value, str) or v.value.isascii() else KNP
+        if depth > 4:
+            return K(USER)
+        if isinstance(v, ast.JoinedStr):
+            return join(KPY, *[self.const_kind(x, depth + 1) for x in v.values])
+        if isinstance(v, ast.FormattedValue):
+            return self.const_kind(v.value, depth + 1)
+        if isinstance(v, (ast.Tuple, ast.List, ast.Set)):
+            return join(KPY, *[self.const_kind(x, depth + 1) for x in v.elts])
+        if isinstance(v, ast.Dict):
+            return join(KPY, *[self.const_kind(x, depth + 1) for x in list(v.values) + [k for k in v.keys if k is not None]])
+        if isinstance(v, ast.IfExp):
+            return join(self.const_kind(v.body, depth + 1), self.const_kind(v.orelse, depth + 1))
+        if isinstance(v, (ast.UnaryOp,)):
+            return self.const_kind(v.operand, depth + 1)
+        if isinstance(v, ast.BinOp):
+            return join(self.const_kind(v.left, depth + 1), self.const_kind(v.right, depth + 1))
+        if isinstance(v, ast.Attribute):
+            return KPY if isinstance(v.value, ast.Attribute) and isinstance(v.value.value, ast.Name) and v.value.value.id in THRIFT_MODULES else K(USER)
+        if isinstance(v, ast.Name):
+            cands = [st.value for tree in self.prog.mods.values() for st in tree.body
+                     if isinstance(st, ast.Assign) and len(st.targets) == 1 and isinstance(st.targets[0], ast.Name) and st.targets[0].id == v.id]
+            return self.const_kind(cands[0], depth + 1) if len(cands) == 1 else K(USER)
+        return K(USER)
+
+    def e_Constant(self, e, env, fn):
+        return self.const_kind(e)
+
+    def e_JoinedStr(self, e, env, fn):
+        return join(KPY, *[self.ev(v, env, fn) for v in e.values])
+
+    def e_FormattedValue(self, e, env, fn):
+        return self.ev(e.value, env, fn)
+
+    def e_Name(self, e, env, fn):
+        if e.id in env:
+            return env[e.id]
+        if e.id in ("True", "False", "None"):
+            return KPY
+        if e.id in self.consts:
+            return self.const_kind(self.consts[e.id])
+        return self.const_kind(e)
+
+    def e_BinOp(self, e, env, fn):
+        return join(self.ev(e.left, env, fn), self.ev(e.right, env, fn))
+
+    def e_Compare(self, e, env, fn):
+        self.ev(e.left, env, fn)
+        for c in e.comparators:
+            self.ev(c, env, fn)
+        return KPY
+
+    def e_UnaryOp(self, e, env, fn):
+        k = self.ev(e.operand, env, fn)
+        return KPY if isinstance(e.op, ast.Not) else k
+
+    def e_Attribute(self, e, env, fn):
+        if isinstance(e.value, ast.Attribute) and isinstance(e.value.value, ast.Name) and e.value.value.id in THRIFT_MODULES:
+            return KPY
+        if isinstance(e.value, ast.Name) and e.value.id in THRIFT_MODULES:
+            return KPY
+        b = self.ev(e.value, env, fn)
+        if e.attr in PY_ATTRS or e.attr in ("dtype", "itemsize"):
+            return KPY
+        return b if b[0] != SAFE else K(USER) if (e.attr in self.fields or e.attr in self.children) else b
+
+    def e_Subscript(self, e, env, fn):
+        b = self.ev(e.value, env, fn)
+        if not isinstance(e.slice, ast.Slice):
+            self.ev(e.slice, env, fn)
+        return b
+
+    def e_Lambda(self, e, env, fn):
+        return KPY
+
+    def iter_kind(self, it, k):
+        if isinstance(it, ast.Call) and isinstance(it.func, ast.Name) and it.func.id == "range":
+            return KPY
+        return k
+
+    def e_Call(self, e, env, fn):
+        f = e.func
+        args = [self.ev(a, env, fn) for a in e.args]
+        kws = {k.arg: self.ev(k.value, env, fn) for k in e.keywords}
+        kwn = {k.arg: k.value for k in e.keywords if k.arg}
+        struct = None
+        if isinstance(f, ast.Attribute) and isinstance(f.value, ast.Name) and f.value.id in THRIFT_MODULES and f.attr[:1].isupper():
+            struct = f.attr
+        elif isinstance(f, ast.Attribute) and f.attr == "from_fields":
+            struct = e.args[0].value if e.args and isinstance(e.args[0], ast.Constant) else next(
+                (k.value.value for k in e.keywords if k.arg == "thrift_name" and isinstance(k.value, ast.Constant)), "?")
+        if struct is not None:
+            vals = [(k.arg, kws[k.arg], ast.unparse(k.value)) for k in e.keywords if k.arg and k.arg not in ("i32", "i32list", "thrift_name")]
+            self.site(e.lineno, fn, struct, vals)
+            return join(KPY, *[v[1] for v in vals])             # the struct carries its texts (a list of KeyValue is a container of them)
+        # json_encoder()(x): the codecs of fastparquet/json.py return bytes
+        if isinstance(f, ast.Call) and isinstance(f.func, ast.Name) and f.func.id == "json_encoder":
+            return KPY
+        name = f.id if isinstance(f, ast.Name) else f.attr if isinstance(f, ast.Attribute) else None
+        if name == "dumps":
+            ea = kwn.get("ensure_ascii")
+            root = root_of(f)
+            if root == "orjson" or root in ("pickle", "marshal"):
+                return KPY
+            if ea is None or (isinstance(ea, ast.Constant) and ea.value):
+                return KPY if (root in JSON_ROOTS or root in ("self", "api")) else join(KPY, *args)
+            if isinstance(ea, ast.Constant):
+                return KPY if all(a[0] == SAFE for a in args) else retag(join(*args), NONASCII)
+            return retag(join(KPY, *args), UNK)
+        if isinstance(f, ast.Attribute):
+            b = self.ev(f.value, env, fn)
+            if f.attr in TO_BYTES:
+                return KPY
+            if f.attr in CONTAINER_ADD and isinstance(f.value, ast.Name):
+                env[f.value.id] = join(env.get(f.value.id, KPY), *args, *kws.values())
+                return KPY
+            if f.attr == "decode":
+                return b if b[0] != SAFE else K(USER)           # text decoded from data (a file, a caller's bytes)
+            if isinstance(f.value, ast.Name) and f.value.id in ("np", "numpy", "pd", "pandas", "os", "struct", "re"):
+                return join(KPY, *args, *kws.values())
+            s = self.call_summary(f.attr, args, kws, True) if f.attr in self.prog.funcs else None
+            if s is not None and s[0] != UNK:
+                return join(s, b) if f.attr in ("copy",) else s
+            return join(KPY, b, *args, *kws.values())
+        if isinstance(f, ast.Name):
+            if f.id in NUMERIC_FUNCS:
+                return KPY
+            if f.id in self.prog.funcs:
+                s = self.call_summary(f.id, args, kws, False)
+                if s[0] != UNK:
+                    return s
+            return join(KPY, *args, *kws.values())
+        self.ev(f, env, fn)
+        return join(KPY, *args, *kws.values())
+
+    def bind(self, t, k, env, value, fn, from_iter=False):
+        if isinstance(t, ast.Subscript):
+            self.ev(t.value, env, fn)
+            r = t.value
+            while isinstance(r, (ast.Subscript, ast.Attribute)):
+                r = r.value
+            if isinstance(r, ast.Name):
+                env[r.id] = join(env.get(r.id, KPY), k)          # weak update of the container
+            if isinstance(t.slice, ast.Constant) and isinstance(t.slice.value, int) and not isinstance(t.slice.value, bool) and \
+                    self.rel.endswith(("writer.py", "api.py", "util.py", "schema.py")):
+                self.site(t.lineno, fn, f"[{t.slice.value}]", [(f"[{t.slice.value}]", k, ast.unparse(value) if value is not None else "?")])
+            return
+        if isinstance(t, ast.Attribute):
+            self.ev(t.value, env, fn)
+            if (t.attr in self.fields or t.attr in self.children) and not (isinstance(t.value, ast.Name) and t.value.id == "self"):
+                self.site(t.lineno, fn, "." + t.attr, [(t.attr, k, ast.unparse(value) if value is not None else "?")])
+            r = t.value
+            while isinstance(r, (ast.Subscript, ast.Attribute)):
+                r = r.value
+            if isinstance(r, ast.Name) and r.id != "self":
+                env[r.id] = join(env.get(r.id, KPY), k)
+            return
+        return super().bind(t, k, env, value, fn, from_iter)
+
+
+def root_of(f):
+    e = f
+    while isinstance(e, (ast.Attribute, ast.Call, ast.Subscript)):
+        e = e.func if isinstance(e, ast.Call) else e.value
+        if isinstance(e, ast.Attribute) and e.attr == "api":
+            return "api"
+    return e.id if isinstance(e, ast.Name) else None
+
+
+def json_codecs_return_bytes():
+    """fastparquet/json.py: every `dumps` of a codec class returns `<...>.encode(...)` or orjson's bytes -> (ok, {class: return expr})"""
+    path = os.path.join(REPO, "fastparquet", "json.py")
+    tree = ast.parse(open(path).read())
+    out, ok = {}, True
+    for c in tree.body:
+        if isinstance(c, ast.ClassDef):
+            for m in c.body:
+                if isinstance(m, ast.FunctionDef) and m.name == "dumps" and not any(isinstance(d, ast.Name) and d.id == "abstractmethod" for d in m.decorator_list):
+                    rets = [r.value for r in ast.walk(m) if isinstance(r, ast.Return) and r.value is not None]
+                    uses_orjson = any(isinstance(n, ast.Import) and any(a.name == "orjson" for a in n.names) for n in ast.walk(c))
+                    good = bool(rets) and all((isinstance(r, ast.Call) and isinstance(r.func, ast.Attribute) and r.func.attr == "encode") or
+                                              (uses_orjson and isinstance(r, ast.Call) and isinstance(r.func, ast.Attribute) and r.func.attr == "dumps") for r in rets)
+                    out[c.name] = "; ".join(ast.unparse(r)[:70] for r in rets)
+                    ok = ok and good
+    return ok and bool(out), out
+
+
+def check_text(ctx=None, timeout=None):
+    res = KResults()
+    try:
+        ok, impl = json_codecs_return_bytes()
+        res.addk("thrift_text.json_codecs_return_bytes", "safety", PROVED if ok else REFUTED, None if ok else {"dumps": impl}, 0.0, "ast",
+                 "every codec of fastparquet/json.py returns encoded bytes from dumps (json / ujson / rapidjson: .encode('utf-8'); orjson: bytes): " + str(impl)[:300])
+    except Exception as ex:
+        res.addk("thrift_text.json_codecs_return_bytes", "safety", UNKNOWN, None, 0.0, "ast", f"{type(ex).__name__}: {ex}")
+    prog, specs, idl = analyse(TextAnalyzer)
+    seen = {}
+    for rel, line, fn, struct, vals in prog.sites:
+        seen[(rel, line, fn, struct)] = vals
+    n = 0
+    for (rel, line, fn, struct), vals in sorted(seen.items()):
+        if struct.startswith("."):
+            nm = struct[1:]
+            classes = {field_class(idl, s_, nm) for s_ in specs if nm in specs[s_] and s_ in idl.structs}
+            if classes == {"numeric"}:
+                continue
+            cls_of = lambda a: "binary"
+        elif struct.startswith("["):
+            cls_of = lambda a: "binary"
+        else:
+            cls_of = lambda a, struct=struct: field_class(idl, struct, a) or "binary"
+        vs = [(a, k, s) for a, k, s in vals if cls_of(a) != "numeric"]
+        if not vs:
+            continue
+        n += 1
+        name = f"thrift_text.library_generated_text_is_ascii_or_bytes[{rel}:{line}:{fn}:{struct}]"
+        bad = [x for x in vs if x[1][0] == NONASCII]
+        unk = [x for x in vs if x[1][0] == UNK]
+        usr = [x for x in vs if x[1][0] == USER]
+        if bad:
+            res.addk(name, "safety", REFUTED, {"site": f"{rel}:{line}", "function": fn, "struct": struct,
+                                               "non_ascii_text_from_the_library": {a: s[:90] for a, k, s in bad}}, 0.0, "kind-analysis",
+                     "text that the library itself generates and that may be non-ASCII (json.dumps(..., ensure_ascii=False) / a non-ASCII literal) reaches a "
+                     "binary / string thrift field as str: to_bytes counts its characters, write_thrift copies its UTF-8 bytes (heap overrun for large text)")
+        elif unk:
+            res.addk(name, "safety", UNKNOWN, None, 0.0, "kind-analysis", "undecided (not a violation): " + "; ".join(f"{a} = {s[:60]}" for a, k, s in unk))
+        else:
+            res.addk(name, "safety", PROVED, None, 0.0, "kind-analysis",
+                     "every text the library generates for this site is ASCII or encoded bytes" +
+                     (f"; caller-supplied / foreign text (region of the known capacity finding, not decided here): {', '.join(a for a, _, _ in usr)}" if usr else ""))
+    if n < 15:
+        res.addk("thrift_text.sites_found", "safety", UNKNOWN, None, 0.0, "kind-analysis", f"only {n} text sites found (expected >= 25)")
     return res
